@@ -807,7 +807,19 @@ def _memo_rule(r, idx, cg):
         key_exprs = [sx.slice]
         if isinstance(sx.slice, ast.Name):
             key_exprs = [d for d in all_defs(cf).get(sx.slice.id, []) if d is not None] or [sx.slice]
-        capnames = {nm for nm in ("bigcap", "writecap", "readcap") if nm in deps}
+        # the names that hold a whole cap string: the two cap parameters, and - by role, whatever it is called - every
+        # local all of whose definitions are such a name, a selection between them (a or b, a if c else b) or a
+        # concatenation / tuple that contains one whole
+        capnames = {nm for nm in ("writecap", "readcap") if nm in deps}
+        adefs = all_defs(cf)
+        grown = True
+        while grown:
+            grown = False
+            for nm in sorted(deps - capnames - params):
+                ds = adefs.get(nm)
+                if ds and all(d is not None and _whole_operand(d, capnames) for d in ds):
+                    capnames.add(nm)
+                    grown = True
         for ke in key_exprs:
             r.require(_whole_operand(ke, capnames), cf, cf.loc(ke), "memo key %s does not contain the whole cap string" % src(cf, ke))
         # stored value is the object that is returned
